@@ -45,7 +45,8 @@ def cases(draw, exclude: frozenset = frozenset()):
 		vis = [0 if ('transitive-visible-edit' in exclude and P.dependents(graph, m) - {x for x in graph if m in graph[x]}) else rnd.randint(0, P.VISIBLE[m] - 1) for _ in range(2)]
 		ops = [['run', m, 0, 1, 0, '0'], ['edit', m, vis[0], 2, 0, '0'], ['run', m, 0, 1, 0, '0'], ['edit_old_mtime', m, vis[1], 3, rnd.randint(0, 5), '0'], ['run', m, 0, 1, 0, '0']] + ops[:4]
 	ops.append(['run', mods[0], 0, 1, 0, '0'])
-	return {'graph': gname, 'ops': ops}
+	# in half of the histories the grammar file is newer than every source file (the tool was installed after the sources were written)
+	return {'graph': gname, 'ops': ops, 'grammar_newer': rnd.random() < 0.5}
 
 
 class OpenSpy:
@@ -98,6 +99,11 @@ def judge(scratch: str, case: dict) -> tuple[list[tuple[str, str]], dict]:
 			path = os.path.join(proj, 'config.yml' if cache else 'config_nocache.yml')
 			text = open(path).read().replace(os.path.join(env.REPO, 'data/grammar.lark'), 'data/grammar.lark')
 			open(path, 'w').write(text)
+		if case.get('grammar_newer'):
+			g = os.path.join(proj, 'data/grammar.lark')
+			future = os.stat(g).st_mtime_ns + 86_400_000_000_000
+			os.utime(g, ns=(future, future))
+			trace.append('grammar newer than all sources')
 		state = {m: (0, 1) for m in graph}
 		for m in graph:
 			P.bump_write(os.path.join(proj, 'src', m + '.py'), P.module_source(m, pkg, 0, 1, graph))
@@ -228,7 +234,7 @@ def shard(ctx: core.Ctx) -> None:
 		fails, info = run_judge(ctx.scratch, case)
 		ctx.extra['runs'] = ctx.extra.get('runs', 0) + info['runs']
 		ctx.case([case['graph'], case['ops']], info['warm_after_visible_edit'] or info['truncation_read'], sample={'graph': case['graph'], 'history': [f'{o[0]}({o[1]},{o[2]},{o[3]})' if o[0] == 'edit' else o[0] for o in case['ops']]},
-			labels=['history', case['graph']] + [k for k in ('warm_after_visible_edit', 'truncation_read', 'mtime_recurrence') if info[k]])
+			labels=['history', case['graph']] + (['grammar-newer-than-sources'] if case.get('grammar_newer') else []) + [k for k in ('warm_after_visible_edit', 'truncation_read', 'mtime_recurrence') if info[k]])
 		for sig, detail in fails:
 			ctx.fail(sig, detail, case)
 
